@@ -98,6 +98,13 @@ func (r *crashRecorder) jobDone(target kv.Family, isRollup bool, err error) {
 // runCrashCase runs the history (oracle after every step as in the main part), captures the crash points of its rollup
 // steps and recovers each of them.
 func runCrashCase(rep *vevid.Report, f *vevid.Flags, c *Case) {
+	// kv family ids are per-store creation counters: every case runs a second time with an (empty) sibling hour of the
+	// position's day created first, so that the history's source family is not family 1 of its store (the target families are)
+	runCrashCaseWith(rep, f, c, false)
+	runCrashCaseWith(rep, f, c, true)
+}
+
+func runCrashCaseWith(rep *vevid.Report, f *vevid.Flags, c *Case, siblingFirst bool) {
 	rep.Evaluations++
 	scen := fmt.Sprintf("steps=%s %s", c.Steps, posClass(c))
 	dir := filepath.Join(f.Scratch, "eng")
@@ -116,6 +123,17 @@ func runCrashCase(rep *vevid.Report, f *vevid.Flags, c *Case) {
 	}
 	rec.w = w
 	w.jobObserver = rec.jobDone
+	if siblingFirst {
+		sib := c.Pos.start() + 3*msHour
+		if c.Pos.H >= 21 {
+			sib = c.Pos.start() - 3*msHour
+		}
+		if shard, ok := w.box.DB.GetShard(shardID); ok {
+			if _, err := shard.GetOrCrateDataFamily(sib); err != nil {
+				vevid.OpFailed("create family: %v", err)
+			}
+		}
+	}
 	okHistory := true
 	for i, st := range c.Steps {
 		var err error
@@ -175,12 +193,14 @@ func runCrashCase(rep *vevid.Report, f *vevid.Flags, c *Case) {
 		flush   bool
 		reverse bool // the repeated rollup visits the source families in descending order (a sibling family of the day first)
 		sibling bool // a new file goes into ANOTHER hour of the position's day (same source store, same target families); that family is rolled up first, then everything
+		twice   bool // the recovered node is closed and opened once more before the rollup is repeated (every open writes a new manifest snapshot)
 	}
 	var variants []variant
 	for _, cp := range rec.points {
-		variants = append(variants, variant{cp, false, false, false}, variant{cp, true, false, false}, variant{cp, true, false, true})
+		variants = append(variants, variant{cp, false, false, false, false}, variant{cp, true, false, false, false}, variant{cp, true, false, true, false},
+			variant{cp, false, false, false, true})
 		if len(cp.fams) > 1 {
-			variants = append(variants, variant{cp, false, true, false}, variant{cp, true, true, false})
+			variants = append(variants, variant{cp, false, true, false, false}, variant{cp, true, true, false, false})
 		}
 	}
 	for _, vr := range variants {
@@ -198,6 +218,16 @@ func runCrashCase(rep *vevid.Report, f *vevid.Flags, c *Case) {
 		}
 		where := fmt.Sprintf("%s: crash during step %d (r) of %s after [%s]", c, cp.step+1, c.Steps, cp.label)
 		b, err := vbox.Open(dir, dbName, dbOption(), []models.ShardID{shardID})
+		if err == nil && vr.twice {
+			// the first restart reads every family (segments and their kv stores open lazily; an opened store writes a
+			// new manifest with a snapshot of what it recovered), then the node is stopped and started again
+			tw := &world{dir: dir, box: b, c: c, known: map[string]bool{}, m: newModel(shape)}
+			if _, oerr := tw.observe(); oerr != nil {
+				rep.Violate(vevid.Violation{Clause: "crash/unreadable", Scenario: scen, Site: site, Detail: fmt.Sprintf("%s: recovered families cannot be read at the first restart: %v", where, oerr), Replay: c})
+			}
+			b.Close()
+			b, err = vbox.Open(dir, dbName, dbOption(), []models.ShardID{shardID})
+		}
 		if err != nil {
 			rep.Violate(vevid.Violation{Clause: "crash/recovery-failed", Scenario: scen, Site: site, Detail: fmt.Sprintf("%s: engine does not open: %v", where, err), Replay: c})
 			continue
@@ -216,6 +246,9 @@ func runCrashCase(rep *vevid.Report, f *vevid.Flags, c *Case) {
 		}
 		if vr.reverse {
 			tag += " (source families in descending order)"
+		}
+		if vr.twice {
+			tag = "reopen, close, reopen, rollup"
 		}
 		if vr.sibling {
 			tag = "reopen, flush into another hour of the day, rollup of that hour, rollup"
